@@ -106,6 +106,7 @@ def plan(tier, seed):
     for lo, hi in core.chunks(len(dmenu()) ** 3, 8):
         jobs.append({'space': 'S1c', 'lo': lo, 'hi': hi, 'tier': tier,
                      'weight': hi - lo})
+    jobs.append({'space': 'S4', 'tier': tier, 'weight': 3000})
     for lo, hi in core.chunks(5 ** 6, 16):
         jobs.append({'space': 'S1b', 'lo': lo, 'hi': hi, 'tier': tier,
                      'weight': hi - lo})
@@ -148,6 +149,8 @@ def run(job, seed):
     b = BOUNDS[job['tier']]
     if job['space'] == 'S3':
         return run_validator(acc, P, job, 'abc'[:b['vnames']])
+    if job['space'] == 'S4':
+        return run_updates(acc, P)
     names = 'abcd'[:b['names']]
     m = menu(names)
     M = len(m)
@@ -209,6 +212,53 @@ def run(job, seed):
             acc.case('S2', True)
             evaluate_all(acc, enf, rules, case)
     acc.sample('S1', rules)
+    return acc.result()
+
+
+def run_updates(acc, P):
+    """S4: validation is repeated on ONE enforcer while rules are redefined
+    in place (set_rules(overwrite=False), item assignment): every call must
+    report what the graph analysis says about the rules as they now stand."""
+    import itertools
+    from oslo_policy import _parser
+    names = ('a', 'b', 'c')
+    bodies = ['role:x', 'rule:a', 'rule:b', 'rule:c', 'not rule:a',
+              'rule:b or role:x', 'rule:zz']
+    for start in itertools.product(bodies[:5], repeat=3):
+        rules0 = dict(zip(names, start))
+        for name, body, how in itertools.product(names, bodies,
+                                                 ('update', 'assign')):
+            if rules0[name] == body:
+                continue
+            enf = world.bare_enforcer()
+            world.set_rules(enf, rules0)
+            cur = dict(rules0)
+            acc.case('S4', True)
+            for step in (0, 1):
+                if step == 1:
+                    if how == 'update':
+                        enf.set_rules(P.Rules.from_dict({name: body}),
+                                      overwrite=False, use_conf=False)
+                    else:
+                        enf.rules[name] = _parser.parse_rule(body)
+                    cur[name] = body
+                undefined, cyc = graph_problem(cur)
+                acc.ev()
+                try:
+                    got = enf.check_rules()
+                except Exception as e:
+                    got = 'raises %s' % type(e).__name__
+                if got != (not (undefined or cyc)):
+                    acc.violation(
+                        'S4|%s|%s' % ('missed' if (undefined or cyc)
+                                      else 'false-alarm', how),
+                        'after the in-place %s of %r to %r check_rules() '
+                        'returned %r; the rules now have undefined=%s '
+                        'cycle=%s' % (how, name, body, got, undefined, cyc),
+                        {'rules': rules0, 'update': [name, body, how]},
+                        not (undefined or cyc), got, 'S4')
+                acc.outcome('undefined=%s cycle=%s' % (undefined, cyc))
+    acc.sample('S4', {'rules': rules0, 'update': [name, body, how]})
     return acc.result()
 
 
